@@ -12,6 +12,7 @@ from .._models import (
     Origin,
     Request,
     Response,
+    authority_host,
     enforce_bytes,
     enforce_headers,
     enforce_url,
@@ -269,7 +270,10 @@ class AsyncTunnelHTTPConnection(AsyncConnectionInterface):
 
         async with self._connect_lock:
             if not self._connected:
-                target = b"%b:%d" % (self._remote_origin.host, self._remote_origin.port)
+                target = b"%b:%d" % (
+                    authority_host(self._remote_origin.host),
+                    self._remote_origin.port,
+                )
 
                 connect_url = URL(
                     scheme=self._proxy_origin.scheme,
